@@ -486,7 +486,7 @@ def run_programs(exe, programs, workdir, tag="run", procs=8, timeout=600, env=No
                 break
             # crashed / timed out inside program start + len(ex) - 1
             bad = start + max(len(ex) - 1, 0)
-            with open(ep) as ef:
+            with open(ep, errors="replace") as ef:
                 tail = ef.read()[-3000:]
             out_crashes.append((bad, r.returncode, tail))
             start = bad + 1
